@@ -60,6 +60,18 @@ def gen_join_texts(rnd, n):
     return out
 
 
+LIT_TOKENS = [',', ', ', '*', ' * ', 'a.*', 'b.*', ' as ', 'AS', 'x', 'y', 'z1', 'count(*)', ' COUNT( * )', 'select', 'from a', 'where', '=', '==', '#', ';', '(', ')', '[', ']', 'a1', 'a[1]',
+              'NR', 'top 2', 'distinct', 'join b on', 'order by', 'limit 1', 'with (header)', 'group by', 'except', 'unnest(', 'update', 'set', ' ', '  ', '.', 'b1', 'like', 'and', 'or', '!=', 'é']
+
+
+def hostile_literal(rnd):
+    """literal content: one of the fixed hostile strings, or a random SEQUENCE of RBQL keywords and metacharacters
+    (commas around stars, alias-like `as x,` text, count(*) after a comma, clause keywords in a row, …)"""
+    if rnd.random() < 0.45:
+        return rnd.choice(HOSTILE_LITERALS)
+    return ''.join(rnd.choice(LIT_TOKENS) for _ in range(rnd.randint(2, 5)))
+
+
 def gen_query_cases(rnd, n):
     cases = []
     for _ in range(n):
@@ -68,7 +80,7 @@ def gen_query_cases(rnd, n):
         q = {'items': []}
         B = None
         shape = rnd.choice(['select', 'select', 'order', 'distinct', 'top', 'join', 'update', 'agg'])
-        lit = lambda: ['lit', rnd.choice(HOSTILE_LITERALS)]
+        lit = lambda: ['lit', hostile_literal(rnd)]
         if shape == 'update':
             q = {'update': True, 'items': [], 'assigns': [[rnd.randrange(ncols), rnd.choice([lit(), ['concat', ['a', 0], lit()]])]]}
             if rnd.random() < 0.5:
